@@ -63,7 +63,9 @@ RootShapes ==
    [params |-> <<"T", "U">>, base |-> 0, bargs |-> <<>>, fields |-> ("x" :> Var("T") @@ "y" :> DictOf(Var("U"), ListOf(Var("T"))))],
    [params |-> <<"T", "U">>, base |-> 0, bargs |-> <<>>, fields |-> ("x" :> Var("U") @@ "y" :> ListOf(Var("T")) @@ "z" :> A("int"))],
    [params |-> <<"B">>, base |-> 0, bargs |-> <<>>, fields |-> ("x" :> Var("B") @@ "y" :> ListOf(Var("B")))],
-   [params |-> <<"C", "T">>, base |-> 0, bargs |-> <<>>, fields |-> ("x" :> Var("C") @@ "y" :> DictOf(Var("T"), Var("C")))]}
+   [params |-> <<"C", "T">>, base |-> 0, bargs |-> <<>>, fields |-> ("x" :> Var("C") @@ "y" :> DictOf(Var("T"), Var("C")))],
+   \* a type variable inside a union member (written Union[List[T], int] or list[T] | int by gamma)
+   [params |-> <<"T">>, base |-> 0, bargs |-> <<>>, fields |-> ("x" :> UnionOf(ListOf(Var("T")), A("int")) @@ "y" :> Var("T"))]}
 \* argument annotations a child may give to a parent with n parameters, over the child's own candidate variables
 NoFields == [q \in {} |-> A("int")]
 ArgPool(vars) == Concrete \cup {Var(v) : v \in vars} \cup {ListOf(Var("T"))}
